@@ -6,7 +6,7 @@ effectful operations (sinks) they contain, with a provenance class for every sin
 Nodes   : every function / method / nested function of the package (apps/ and tests excluded),
           one merged node per scope for its lambdas, one `<module>` node per module (module and class
           bodies), and two synthetic nodes:
-            IMPLICIT -> every dunder method and every property accessor of the package
+            IMPLICIT -> every dunder method, every property accessor and every generator function of the package
             DYN      -> every function whose name occurs as a string constant in the package or
                         that is referenced as a value (address taken)
 Edges   : f(...)            resolved by name (nested def, module def, import from a package module);
@@ -653,6 +653,10 @@ class Analysis:
         self.implicit = sorted(s.id for s in self.scopes.values()
                                if s.kind == "func" and s.qual.split(".")[-1].startswith("__") and s.qual.split(".")[-1].endswith("__"))
         self.implicit = sorted(set(self.implicit) | {x for acc in self.props.values() for x in acc if x in self.scopes})
+        # generator functions are resumed by whoever iterates and finalised by the garbage collector in any frame
+        gens = {s.id for s in self.scopes.values()
+                if any(isinstance(n, (ast.Yield, ast.YieldFrom)) for n in getattr(s, "nodes", []))}
+        self.implicit = sorted(set(self.implicit) | gens)
         dyn = set()
         for s in self.scopes.values():
             bare = s.qual.split(".")[-1]
